@@ -81,7 +81,23 @@ def r1(ctx):
                 ctx.info(R, k, t["s"], "allowed: " + allow[b.id])
             else:
                 ctx.bad(R, k, t["s"], f"the Result of `{t['f']}` in `{b.id}` is never looked at (only dropped): an error returned by host or client software is swallowed and run() can succeed")
-    ctx.floor(R, 4)
+    # the only swallowed JoinError is the cancelled one (a crashed host's task)
+    rt = ctx.body(R, "turmoil::rt::Rt::tick")
+    if rt:
+        te, fe = call_guard_edges(rt, re.compile(r"^tokio::task::JoinError::is_cancelled$|^tokio::runtime::task::JoinError::is_cancelled$|JoinError::is_cancelled$"))
+        bo = [bb for bb, t in rt.calls("tokio::runtime::Runtime::block_on") if any("JoinHandle" in rt.tys[a]["s"] for a in t.get("at", ()))]
+        ok = False
+        if bo:
+            # from the block_on result, every path to the Ok(true) return either passes Try::branch (propagation) or the is_cancelled true edge
+            dl = rt.term(bo[0])["d"]["l"]
+            br = [bb for bb, t in rt.calls(re.compile(r"Try>::branch$")) ]
+            nxt = rt.term(bo[0])["t"]
+            esc = rt.reachable(nxt, removed_blocks=br, removed_edges=te)
+            leak = [x for x in esc if rt.term(x)["k"] == "return"]
+            ok = bool(te) and not leak
+        ctx.inst(R, "Rt::tick:only-cancelled-swallowed", ok, rt.span, "a join error is dropped only when it is the cancellation of a crashed host; everything else is propagated" if ok else
+                 "Rt::tick has a path from the awaited software result to a normal return that neither propagates it with `?` nor is guarded by JoinError::is_cancelled: software errors / panics can be swallowed")
+    ctx.floor(R, 5)
 
 
 def r2(ctx):
